@@ -5,7 +5,7 @@ from ..ref import P, L, to32, le
 
 REQUIRED = ['sqrt:residue', 'sqrt:nonresidue', 'sqrt:zero', 'invert:zero', 'invert:nonzero', 'repr:canonical', 'repr:noncanonical',
             'repr:highbit', 'consts', 'enc:edwards', 'enc:subgroup-torsion', 'enc:subgroup-free', 'enc:ristretto',
-            'subgroup:torsion', 'subgroup:free', 'ops:edwards', 'ops:subgroup', 'ops:ristretto', 'ops:scaled', 'field-bits']
+            'subgroup:torsion', 'subgroup:free', 'ops:edwards', 'ops:subgroup', 'ops:ristretto', 'ops:scaled', 'field-bits', 'group-random:skips']
 
 
 def B(x):
@@ -167,8 +167,34 @@ def scalars(ctx, n):
             if m is not None and m != ref.IDENT:
                 exp = ref.ed_compress(m).hex()
                 break
-        if exp:
-            ctx.add('misc.ed_random', b.hex(), expect=[exp], cls='group-random')
+        sv = le(b) % L
+        sub = ref.ed_compress(ref.base_mul(sv)).hex() if sv else None
+        if exp and sub:
+            # (an RNG stream that stays zero makes SubgroupPoint::random wait for a non-zero scalar for ever: not sent)
+            ctx.add('misc.ed_random', b.hex(), expect=[exp, sub], cls='group-random')
+    # scripted RNG streams whose first blocks must be skipped: every encoding of the identity (canonical and not),
+    # undecodable blocks; torsion points other than the identity are legitimate results
+    ident_encs = [to32(1), to32(1 | (1 << 255)), to32(P + 1), to32((P + 1) | (1 << 255))]
+    while True:
+        junk = vals.rb(rng, 32)
+        if ref.ed_decompress(junk) is None:
+            break
+    good = vals.Pt(rng.randrange(1, L), rng.randrange(8)).encoding()
+    tors = ref.ed_compress(ref.TORSION[rng.randrange(1, 8)])
+    for pre in [[e] for e in ident_encs] + [ident_encs, [junk], [junk] + ident_encs[1:3], []]:
+        for tail in (good, tors):
+            stream = b''.join(pre) + tail
+            stream += bytes(64 - len(stream) % 64) if len(stream) % 64 else b''
+            m = ref.ed_decompress(tail)
+            # the SubgroupPoint flavour reads 64-byte blocks of the same stream as a wide scalar
+            sv = 0
+            for off in range(0, len(stream) + 64, 64):
+                sv = le((stream[off:off + 64]).ljust(64, b'\0')) % L
+                if sv:
+                    break
+            if sv:
+                ctx.add('misc.ed_random', stream.hex(), expect=[ref.ed_compress(m).hex(), ref.ed_compress(ref.base_mul(sv)).hex()],
+                        cls=['group-random', 'group-random:skips'])
     for v in [0, 1, L - 1, rng.randrange(L)]:
         ctx.add('gp.from_str', 's%d' % v, expect=['some', to32(v).hex()], cls='from-str')
 
